@@ -1,8 +1,10 @@
 #!/bin/bash
-# Builds the verification framework from files on disk only (offline) and proves determinism.
+# Builds the verification framework from files on disk only (offline) and proves determinism of
+# the simulator on a sample (see DESIGN.md 2.1).
 set -eu
 cd "$(dirname "$0")"
 export CARGO_NET_OFFLINE=true
 mkdir -p target evidence replays
-(cd sim && cargo build --release --offline --bin verifsim)
+(cd sim && cargo build --release --offline --bin verifsim --bin verifsim_mt --bin probe_sendsync)
+./tools/selftest_determinism.sh 300
 echo "setup: ok"
